@@ -168,6 +168,13 @@ def run(db, chk):
                    function=fn.bn, construct=m, extra={"unit": fn.unit.name})
 
     # ---- shared clauses
+    # ---- B8: no read of a moved-from object ------------------------------------------------------
+    if chk.want("C08-B8"):
+        from . import movedfrom
+        chk.rule("C08-B8", "no parameter or local is read after it was handed to std::move / std::forward as an argument "
+                 "(its content is unspecified, in practice empty: sizes and indices derived from it are wrong)",
+                 min_instances=30)
+        movedfrom.rule(db, chk, "C08-B8")
     chk.absorb(db, "C20", {"C20-T1"}, "C08-B2b", "the receiver tables are single-column only when every "
                "intermediate state of the sequence is single-direction (shared with C20-T1): otherwise a "
                "multi-direction router writes beyond column 0", min_instances=399)
